@@ -97,3 +97,10 @@ package shachain
 //@   site call derive: assert arg(0) == addr(store.buckets[i]) && arg(toIndex) == ret(newIndex) && i < store.lenBuckets
 //@   ensures result1 == nil ==> retn(derive, 1) == nil && result0 == addr(retn(derive, 0).hash)
 //@   nopanic
+//@
+//@ func NewRevocationStoreFromBytes
+//@   props C06
+//@   loop * havoc
+//@   covers-nonnil-returns except ret(Read), ret(ReadFull)
+//@   site call Read nth 0: assert arg(0) == r && arg(2) == addr(store.lenBuckets)
+//@   site call Read nth 2: assert arg(0) == r && arg(2) == addr(store.index)
